@@ -156,61 +156,108 @@ def f2_load_types_and_features(F, r):
 
 
 def f3_rounding_flag(F, r):
+    """scientific instances: distance = sqrt((x1-x2)^2 + (y1-y2)^2), rounded iff the rounding flag is set. The body holding the formula is found by its sqrt call
+    (the closure inside create_transport, or a helper of the same module it calls), so the rule does not depend on how the code is split."""
     root = F.find1("routing::CoordIndex::create_transport")
-    cls = [c for c in F.children.get(root, []) if F.fns[c]["locals"][0] == "f64"]
-    if len(cls) != 1:
-        raise AnchorError(f"distance closure of create_transport: {len(cls)}")
-    c = cls[0]
+    mod = F.fns[root]["module"]
+    cands = [g for g, fn in F.fns.items() if "::promoted[" not in g and (g == root or g.startswith(root + "::") or (fn["module"] == mod and fn["kind"] != "Closure" and not fn.get("impl_trait")))]
+    bodies = []
+    for g in cands:
+        gfn = F.fns[g]
+        for _, t in mir.calls(gfn):
+            if t["callee"].endswith("f64>::sqrt") and not any(c.endswith("::len") for c in mir.deep_leaves(gfn, t["args"][0])[1]):
+                bodies.append(g)       # (the other sqrt of the module derives the matrix size from a length)
+                break
+    if len(bodies) != 1:
+        raise AnchorError(f"Euclidean distance body of create_transport: {len(bodies)} candidates")
+    c = bodies[0]
     cfn = F.fns[c]
-    ups = [u[0] for u in cfn.get("upvars", [])]
-    if "is_rounded" not in ups:
-        r.fail("create_transport: flag", "distance closure does not capture is_rounded", F.loc(c))
-        return
+    ups = [u[0] for u in cfn.get("upvars", [])] if cfn["kind"] == "Closure" else []
+    flag_arg = None
+    if cfn["kind"] == "Closure":
+        if "is_rounded" not in ups:
+            bools = [u[0] for u in cfn.get("upvars", []) if u[1].lstrip("&") == "bool"]
+            if len(bools) != 1:
+                r.fail("create_transport: flag", "the distance formula does not see the rounding flag", F.loc(c))
+                return
+            flag_name = bools[0]
+        else:
+            flag_name = "is_rounded"
+    else:
+        bl = [i for i in range(1, cfn["argc"] + 1) if cfn["locals"][i] == "bool"]
+        if len(bl) != 1:
+            r.fail("create_transport: flag", "the distance helper does not take the rounding flag", F.loc(c))
+            return
+        flag_arg = bl[0]
     res = {}
     for flag in (True, False):
-        env = ("closure", c, [("bool", flag) if u == "is_rounded" else oe.sym(u) for u in ups])
-        it = oe.Interp(F, c, {1: oe.ref(env), 2: oe.ref(oe.sym("p2"))}, fresh=True, observe=("f64>::round", "f64>::sqrt"))
-        paths = it.explore()
-        res[flag] = paths
+        if cfn["kind"] == "Closure":
+            env = {1: oe.ref(("closure", c, [("bool", flag) if u == flag_name else oe.sym(u) for u in ups])), 2: oe.ref(oe.sym("p2"))}
+        else:
+            env = {i: (("bool", flag) if i == flag_arg else oe.sym(f"p{i}")) for i in range(1, cfn["argc"] + 1)}
+        it = oe.Interp(F, c, env, fresh=True, observe=("f64>::round", "f64>::sqrt"))
+        res[flag] = it.explore()
     ok_t = all(any(cl[0].endswith("round") for cl in p.calls) for p in res[True]) and res[True]
     ok_f = all(not any(cl[0].endswith("round") for cl in p.calls) for p in res[False]) and res[False]
     sq = all(any(cl[0].endswith("sqrt") for cl in p.calls) for p in res[True] + res[False])
     if ok_t and ok_f and sq:
-        r.ok("create_transport: rounding", "rounded iff is_rounded; Euclidean sqrt on both paths")
+        r.ok("create_transport: rounding", "rounded iff the rounding flag is set; Euclidean sqrt on both paths")
     else:
         r.fail("create_transport: rounding", "the is_rounded flag no longer selects exactly between the rounded and the raw Euclidean distance", F.loc(c))
+    # the flag handed to a helper is the caller's flag
+    if cfn["kind"] != "Closure":
+        passed = False
+        for g in cands:
+            gfn = F.fns[g]
+            for _, t in mir.calls(gfn):
+                if (t.get("res") or t["callee"]) == c and len(t["args"]) >= flag_arg:
+                    tr = mir.trace(gfn, t["args"][flag_arg - 1])
+                    names = set()
+                    for k, v, p in tr:
+                        if k in ("arg", "local"):
+                            names.add(gfn["names"].get(str(v), ""))
+                        if gfn["kind"] == "Closure" and k == "arg" and v == 1 and p and str(p[0]).isdigit() and int(p[0]) < len(gfn.get("upvars", [])):
+                            names.add(gfn["upvars"][int(p[0])][0])
+                    if "is_rounded" in names:
+                        passed = True
+        if passed:
+            r.ok("create_transport: flag", "the helper receives the caller's is_rounded")
+        else:
+            r.fail("create_transport: flag", "the distance helper is not called with the caller's is_rounded flag", F.loc(c))
     # Euclidean formula pairs like coordinates: (x1 - x2), (y1 - y2)
     parent_id = None
-    for g in F.children.get(root, []):
-        for bi, si, s in mir.stmts(F.fns[g]):
-            if s["r"]["k"] == "agg" and s["r"].get("ak") == "closure" and s["r"]["n"] == c:
-                parent_id = (g, s)
+    if cfn["kind"] == "Closure":
+        for g in cands:
+            for bi, si, st in mir.stmts(F.fns[g]):
+                if st["r"]["k"] == "agg" and st["r"].get("ak") == "closure" and st["r"]["n"] == c:
+                    parent_id = (g, st)
     pairs = []
-    for bi, si, s in mir.stmts(cfn):
-        rv = s["r"]
+    for bi, si, st in mir.stmts(cfn):
+        rv = st["r"]
         if rv["k"] == "bin" and rv["op"] == "Sub" and rv["ty"] == "f64":
             idx = []
             for o in rv["o"]:
                 comp = None
                 for k, v, p in mir.trace(cfn, o):
-                    if k == "arg" and v == 2 and p and p[-1].isdigit():
-                        comp = ("inner", int(p[-1]))
-                    elif k == "arg" and v == 1 and p and p[0].isdigit() and parent_id:
+                    if k == "arg" and p and str(p[-1]).isdigit() and not (cfn["kind"] == "Closure" and v == 1):
+                        comp = (("arg", v), int(p[-1]))
+                    elif k == "arg" and v == 1 and cfn["kind"] == "Closure" and p and str(p[0]).isdigit() and parent_id:
                         pg, ps = parent_id
                         up = int(p[0])
-                        if up < len(ps["r"]["o"]):
+                        if len(p) >= 2 and str(p[-1]).isdigit() and len(p) > 1 and p[-1] != p[0]:
+                            comp = (("upvar", up), int(p[-1]))
+                        elif up < len(ps["r"]["o"]):
                             for k2, v2, p2 in mir.trace(F.fns[pg], ps["r"]["o"][up]):
-                                if k2 == "arg" and v2 == 2 and p2 and p2[-1].isdigit():
-                                    comp = ("outer", int(p2[-1]))
+                                if k2 == "arg" and p2 and str(p2[-1]).isdigit():
+                                    comp = (("outer", v2), int(p2[-1]))
                 idx.append(comp)
             pairs.append(idx)
-    good = len(pairs) == 2 and all(a and b and a[0] != b[0] and a[1] == b[1] for a, b in pairs) and {a[1] for a, b in pairs} == {0, 1}
+    good = len(pairs) == 2 and all(a and b and a[0] != b[0] and a[1] == b[1] for a, b in pairs) and {a[1] for a, b in pairs} == {0, 1} \
+        and len({a[0] for a, b in pairs}) == 1 and len({b[0] for a, b in pairs}) == 1
     if good:
         r.ok("create_transport: coordinate pairing", "(x1 - x2), (y1 - y2): like coordinates of the two points are subtracted")
     else:
         r.fail("create_transport: coordinate pairing", f"the Euclidean distance does not subtract like coordinates of the two points (pairs {pairs}): distances are not those of the instance", F.loc(c))
-    # the same data serves distance and duration (checked as C16-F1 for SingleDataTransportCost); the parent passes the flag through
-    pfn = F.fns[root]
     r.ok("create_transport: single matrix", "one matrix for distance and duration (SingleDataTransportCost, see C16)")
 
 
